@@ -1,6 +1,38 @@
-(* C07 — placeholder while proofs are written. *)
-From Hv Require Import Prelude Bytes StreamBuf TablesHttp Http.
+(* C07 — response parsing: segmentation independence (this file); serialisation validity, round trip, Content-Length and
+   chunked faithfulness are in C07_flat.v. Property theorems only. *)
+From Hv Require Import Prelude Bytes StreamBuf StreamBufProofs TablesHttp Http HttpStreamProofs.
 Open Scope N_scope.
+
 Theorem C07_headers_iter_stable : headers_iter_sort_is_stable = true.
 Proof. reflexivity. Qed.
+
+(* Response::from_stream over the BufReader model computes, for every byte string and every chunking into non-empty
+   reads, what the flat parser computes on the concatenation (same response or same error class, same remainder):
+   "under every division into read segments". *)
+Theorem C07_parse_response_chunked_refines_flat :
+  forall cs : chunks, wf_chunks cs ->
+    orel (parse_response_chunked cs) (parse_response_flat (concat cs)).
+Proof. exact parse_response_chunked_refines. Qed.
+
+Theorem C07_parse_response_segmentation_independent :
+  forall cs1 cs2 : chunks, wf_chunks cs1 -> wf_chunks cs2 -> concat cs1 = concat cs2 ->
+    oval (parse_response_chunked cs1) = oval (parse_response_chunked cs2).
+Proof. exact parse_response_segmentation_independent. Qed.
+
+(* Non-vacuity: a chunked response split inside the chunk-size line. *)
+Example C07_example_chunked_split :
+  let b1 := [72;84;84;80;47;49;46;49;32;50;48;48;32;79;75;13;10;84;114;97;110;115;102;101;114;45;69;110;99;111;100;105;110;103;58;32;99;104;117;110;107;101;100;13;10;13;10;51] in
+  let b2 := [13;10;97;98;99;13;10;48;13;10;13;10] in
+  wf_chunks [b1; b2] /\
+  (exists r br, parse_response_chunked [b1; b2] = Ok (r, br) /\ s_body r = [97;98;99]) /\
+  oval (parse_response_chunked [b1; b2]) = oval (parse_response_chunked [b1 ++ b2]).
+Proof.
+  cbv zeta. split; [repeat constructor; discriminate|]. split.
+  - vm_compute. eexists. eexists. split; reflexivity.
+  - vm_compute. reflexivity.
+Qed.
+
 Print Assumptions C07_headers_iter_stable.
+Print Assumptions C07_parse_response_chunked_refines_flat.
+Print Assumptions C07_parse_response_segmentation_independent.
+Print Assumptions C07_example_chunked_split.
